@@ -26,6 +26,7 @@ from vlib import core
 sys.path.insert(0, os.path.join(core.VERIF, "translate"))
 sys.path.insert(0, os.path.join(core.VERIF, "checks"))
 import c08 as C08  # noqa: E402
+import c16_grammar as GR  # noqa: E402
 
 MODULE = "UtapModel.Props.C07"
 POOL = ["a", "b", "c"]
@@ -314,6 +315,14 @@ def lib_bindings(trace_lines):
 def run(ctx):
     cov = ctx.coverage
     r = ctx.rng
+    # the grammar table used by C07_grammar_frame_balanced is regenerated from the current parser.y (tie T)
+    try:
+        prods = GR.parse(core.REPO)
+        core.write_if_changed(os.path.join(core.LEAN_DIR, "UtapModel", "Gen", "C16Grammar.lean"), GR.lean_text(prods))
+        cov["productions_translated"] = len(prods)
+    except GR.TranslateError as ex:
+        ctx.proof_broken("translate/c16_grammar.py", str(ex), "nothing could be run")
+        return
     ok, log = ctx.prove(MODULE, ["drv_c07", "drv_c08"])
     if not ok:
         ctx.log("proof broken:", core.failing_theorems(log) or log[-1500:])
